@@ -19,6 +19,7 @@ func linRun(args []string) error {
 	out := fs.String("out", "", "trace file (NDJSON)")
 	nrand := fs.Int("random", 50, "number of random scenarios")
 	seed := fs.Int64("seed", 1, "seed")
+	replaces := fs.Int("replaces", 400, "replaces per Get-vs-replace scenario")
 	fs.Parse(args)
 	w, err := os.Create(*out)
 	if err != nil {
@@ -50,6 +51,15 @@ func linRun(args []string) error {
 			break
 		}
 	}
-	fmt.Printf("{\"scenarios\":%d,\"with_overlap\":%d,\"hangs\":%d}\n", sink.N, overlap, hangs)
+	// Get while an installed entry is being replaced
+	gets := 0
+	if hangs == 0 {
+		for i, kind := range []string{"v4", "v6", "mpls", "nhg", "nh"} {
+			ev := lindrv.RunGet(i+1, kind, *replaces)
+			gets += ev.Gets
+			sink.Emit(ev)
+		}
+	}
+	fmt.Printf("{\"scenarios\":%d,\"with_overlap\":%d,\"hangs\":%d,\"gets_during_replace\":%d}\n", sink.N, overlap, hangs, gets)
 	return nil
 }
